@@ -824,49 +824,14 @@ impl ArchiveIndex {
     }
 
     /// Write archive index to writer
-    pub fn write_to<W: Write + Seek>(&self, mut writer: W) -> ArchiveResult<()> {
-        let chunk_count = calculate_chunks(self.entries.len());
-        let block_size = CHUNK_SIZE;
-        let hash_bytes = self.footer.footer_hash_bytes;
-
-        // Write entry chunks and compute block hashes
-        let mut entry_idx = 0;
-        let mut block_hashes = Vec::with_capacity(chunk_count);
-        for chunk_idx in 0..chunk_count {
-            let mut chunk_data = vec![0u8; block_size];
-            let mut cursor = Cursor::new(&mut chunk_data);
-
-            let entries_in_chunk = if chunk_idx == chunk_count - 1 {
-                self.entries.len() - entry_idx
-            } else {
-                MAX_ENTRIES_PER_CHUNK.min(self.entries.len() - entry_idx)
-            };
-
-            for _ in 0..entries_in_chunk {
-                if entry_idx < self.entries.len() {
-                    let entry_bytes = self.entries[entry_idx].to_bytes(4, 4)?;
-                    cursor.write_all(&entry_bytes)?;
-                    entry_idx += 1;
-                }
-            }
-
-            block_hashes.push(calculate_block_hash(&chunk_data, hash_bytes));
-            writer.write_all(&chunk_data)?;
-        }
-
-        // Write table of contents: keys then block hashes
-        for key in &self.toc {
-            writer.write_all(key)?;
-        }
-
-        for block_hash in &block_hashes {
-            writer.write_all(block_hash)?;
-        }
-
-        // Write footer
-        self.footer.write(&mut writer)?;
-
-        Ok(())
+    ///
+    /// Same output as [`ArchiveIndex::build`]: key length, offset width and
+    /// records per block come from this index's footer. (This used to be a
+    /// second copy of the writer that hard-coded 16-byte keys, 4-byte offsets
+    /// and 170 records per block, so indices with any other layout were
+    /// written corrupt and no longer parsed.)
+    pub fn write_to<W: Write + Seek>(&self, writer: W) -> ArchiveResult<()> {
+        self.build(writer)
     }
 }
 
@@ -1343,8 +1308,7 @@ impl crate::CascFormat for ArchiveIndex {
 
     fn build(&self) -> Result<Vec<u8>, Box<dyn std::error::Error>> {
         // The footer-driven writer: key length, offset width and records
-        // per block come from this index's footer (`write_to` assumes the
-        // default 16-byte keys / 4-byte offsets and corrupts other layouts).
+        // per block come from this index's footer.
         let mut output = Vec::new();
         ArchiveIndex::build(self, Cursor::new(&mut output))
             .map_err(|e| Box::new(e) as Box<dyn std::error::Error>)?;
